@@ -103,7 +103,10 @@ def fault_case(rng):
         src = inp + src
         pos += len(inp)
         files = {'e.tex': rng.choice(['', '', '\\newcommand{\\qq}{Q}\n', '% nothing\n', ' '])}
-    return {'src': src, 'opts': {'pack': '*', 'lang': rng.choice(['', 'de'])}, 'multi': False, 'kind': 'fault:' + kind,
+    opts = {'pack': '*', 'lang': rng.choice(['', 'de'])}
+    if kind in ('display', 'display-sep', 'maths', 'arg') and rng.random() < 0.3:
+        opts['seqs'] = True            # simple replacement of displayed equations: the mark must survive
+    return {'src': src, 'opts': opts, 'multi': False, 'kind': 'fault:' + kind,
             'fault_pos': pos, 'must': sorted(must), 'msg': msg, 'files': files}
 
 def judge_fault(case, res):
@@ -130,6 +133,35 @@ def judge_fault(case, res):
         fails.append('text beyond the faulty construct is lost: %r' % lost[:4])
     return fails
 
+VERB_CONTENT = ['[', ']', '*', '{', '}', '$', '&', '[x]', '%', '~', '--', '\\\\']
+
+def verb_lookahead_cases(rng):
+    """well-formed documents in which \\verb material stands where the parser looks ahead for an argument or a terminator:
+    behind \\\\, \\item, macros with a trailing optional or starred argument, in inline and displayed maths"""
+    out = []
+    frames = ['Qa \\\\ %s Qb', 'Qa \\\\%s Qb', '\\begin{itemize}\\item %s Qb\\end{itemize}', '\\begin{enumerate}\\item%s Qb\\end{enumerate}',
+              'Qa \\footnotemark %s Qb', 'Qa \\LaTeX %s Qb', 'Qa \\newline %s Qb', 'Qa \\linebreak %s Qb', 'Qa \\begin{proof} %s Qb\\end{proof}',
+              'Qa $x %s y$ Qb', 'Qa \\(x %s\\) Qb', 'Qa\n\\[ a = %s b \\]\nQb', 'Qa\n\\begin{align} a &= %s \\\\ c &= d \\end{align}\nQb',
+              'Qa \\textbf{x %s} Qb', 'Qa \\footnote{%s} Qb', 'Qa %s Qb']
+    for fr in frames:
+        for c in VERB_CONTENT:
+            d = '|' if '|' not in c else '+'
+            v = '\\verb' + d + c + d
+            out.append({'src': fr % v, 'opts': {'pack': '*', 'lang': rng.choice(['', 'de'])}, 'multi': False, 'kind': 'verb-lookahead',
+                        'content': c, 'maths': ('$' in fr or '\\(' in fr or '\\[' in fr or 'align' in fr)})
+    return out
+
+def judge_verb_lookahead(case, res):
+    f = judge_silent(case, res)
+    if f or res['outcome'] != 'ok':
+        return f
+    if not case['maths'] and case['content'] not in res['txt']:
+        return ['verbatim material %r of the well-formed document %r is missing in the output %r' % (case['content'], case['src'], res['txt'])]
+    for w in ('Qa', 'Qb'):
+        if w in case['src'] and w not in res['txt']:
+            return ['text %r behind / in front of the verbatim material is lost: %r -> %r' % (w, case['src'], res['txt'])]
+    return []
+
 def judge_silent(case, res):
     if res['outcome'] != 'ok':
         return []
@@ -155,6 +187,14 @@ def run(ctx):
         f = judge_silent(c, r)
         if f:
             ctx.violation(f[0], src=c['src'], opts=c['opts'], kind='silent')
+    vl = verb_lookahead_cases(rng)
+    for c, r in zip(vl, ctx.pmap(t2t.run_case, vl)):
+        ctx.case(c['src'], nontrivial=False); ctx.count('verb_lookahead')
+        f = judge_verb_lookahead(c, r)
+        if f:
+            ctx.violation(f[0], src=c['src'], opts=c['opts'], kind='verb-lookahead', content=c['content'], maths=c['maths'])
+    silent = silent + vl
+    rs = rs + ctx.pmap(t2t.run_case, vl)
     rf = ctx.pmap(t2t.run_case, [{k: v for k, v in c.items() if k not in ('must',)} for c in faults])
     for c, r in zip(faults, rf):
         ctx.case(c['src'], nontrivial=True); ctx.count(c['kind'])
@@ -167,6 +207,9 @@ def run(ctx):
     corr.leaf_corr(ctx, faults, rf, want=('latexerr', 'scan'), limit=ctx.scale(300, 3000))
 
 def judge_witness(w):
+    if w.get('kind') == 'verb-lookahead':
+        c = dict(w, opts=w.get('opts') or {}, multi=False)
+        return judge_verb_lookahead(c, t2t.run_case({k: v for k, v in c.items() if k not in ('content', 'maths')}))
     c = dict(w, opts=w.get('opts') or {}, multi=False)
     r = t2t.run_case({k: v for k, v in c.items() if k != 'must'})
     if 'fault_pos' in w:
